@@ -344,6 +344,16 @@ def w_align(ctx, rng, i):
             tgt = tgt.copy()
             tgt[:, 0] = -tgt[:, 0]
             mirrored_target = True
+        if int_src and np.asarray(src).dtype.kind in "iu" and rng.random() < 0.8 and max(float(np.abs(tgt).max()), float(np.abs(src).max())) < 32000:
+            # both point sets are integer pixel positions in a compact type (the target rounded onto the grid: a noisy target)
+            if np.asarray(src).dtype.kind == "i":
+                src, tgt = src.astype(np.int16), np.round(tgt).astype(np.int16)
+                noise = noise or 0.3
+                ctx.bump("integer_typed_sources_and_targets")
+            elif float(np.min(tgt)) >= 0:
+                tgt = np.round(tgt).astype(np.asarray(src).dtype)
+                noise = noise or 0.3
+                ctx.bump("integer_typed_sources_and_targets")
         S, T = ms.PointCloud(src), ms.PointCloud(tgt)
         if rng.random() < 0.25 and len(src) >= 5:
             # the point sets are meshes some of whose vertices no triangle uses (landmark vertices added to a surface, a mesh cut
